@@ -684,10 +684,14 @@ package bus
 
 // addSignalUser: a duplicate id is refused before anything is touched (the table and every
 // connection handler stay as they are); otherwise exactly one entry is appended.
+// regadded counts the registrations actually stored (a success answer of registerEvent implies one)
+//@ ghostfield regadded int counter
 //@ func (o *signalHandler) addSignalUser(userID uint64, signalID uint32, messageID uint32, from Channel) (err error)
 //@   tags C13 C12
 //@   requires !o.signalsMutex.lockw && o.signalsMutex.lockr == 0 && from != nil
-//@   modifies everything
+//@   modifies everything, o.regadded
+//@   ghost_at_return o.regadded := ite(err == nil, old(o.regadded) + 1, old(o.regadded))
+//@   ensures[C13] (err == nil ==> o.regadded == old(o.regadded) + 1) && (err != nil ==> o.regadded == old(o.regadded))
 //@   ensures[C13,C12] !o.signalsMutex.lockw && o.signalsMutex.lockr == 0
 //@   ensures[C13] err == nil ==> at_unlock(len(o.signals)) == at_lock(len(o.signals)) + 1 && at_unlock(o.signals[at_lock(len(o.signals))]).userID == userID && at_unlock(o.signals[at_lock(len(o.signals))]).signalID == signalID && at_unlock(o.signals[at_lock(len(o.signals))]).messageID == messageID
 //@   ensures[C13,C12] err != nil ==> at_unlock(len(o.signals)) == at_lock(len(o.signals))
@@ -704,7 +708,9 @@ package bus
 //@ func (o *signalHandler) RegisterEvent(msg *net.Message, from Channel) (err error)
 //@   tags C13 C12
 //@   requires msg != nil && from != nil && !o.signalsMutex.lockw && o.signalsMutex.lockr == 0
-//@   modifies everything
+//@   modifies everything, o.regadded
+//@   ensures[C13] from.replies == old(from.replies) + 1 ==> o.regadded == old(o.regadded) + 1
+//@   ensures[C13] from.replies == old(from.replies) ==> o.regadded == old(o.regadded)
 //@   ensures[C13,C12] !o.signalsMutex.lockw && o.signalsMutex.lockr == 0
 //@   ensures[C13,C12] from.replies + from.errsent == old(from.replies) + old(from.errsent) + 1
 //@ func (o *signalHandler) UnregisterEvent(msg *net.Message, from Channel) (err error)
